@@ -14,7 +14,7 @@ RULE = ("every valid tableau for N=1 and a stride over the 34560 valid N=2 table
 ASSUMPTIONS = ["PauliList observables are Hermitian (phase 0 or 2); Pauli/monomial/polynomial observables carry any phase",
                "overlap and get_prob are judged on pure receivers only; the documented NotImplementedError on mixed receivers is counted",
                "dense oracle Tr(rho M) for N<=6"]
-REQUIRED_SUBS = ["exp.list", "exp.pauli", "exp.poly", "exp.state", "prob.value", "prob.sum", "query.pure"]
+REQUIRED_SUBS = ["exp.list", "exp.pauli", "exp.poly", "exp.state", "prob.value", "prob.sum", "query.pure", "live.exp", "live.track"]
 REQUIRED_CALLS = ["StabilizerState.expect", "StabilizerState.get_prob"]
 
 
@@ -27,6 +27,9 @@ def shards(tier):
         {"name": "rand.np.jit", "mode": "jit", "backend": "np", "fn": "rand", "n": 500 if q else 30000},
         {"name": "rand.np.interp", "mode": "interp", "backend": "np", "fn": "rand", "n": 120 if q else 3000},
         {"name": "rand.torch", "mode": "jit", "backend": "torch", "fn": "rand", "n": 60 if q else 2500},
+        {"name": "live.np.jit", "mode": "jit", "backend": "np", "fn": "live", "n": 40 if q else 2500},
+        {"name": "live.np.interp", "mode": "interp", "backend": "np", "fn": "live", "n": 12 if q else 400},
+        {"name": "live.torch", "mode": "jit", "backend": "torch", "fn": "live", "n": 10 if q else 400},
     ]
     if not q:
         for k in range(4):
@@ -202,3 +205,43 @@ def run_rand(shard, rec, B):
                 rec.check("exp.vectorizable", got.shape == want.shape and np.allclose(got, want, atol=1e-5),
                           {"N": N, "r": r, "obs": _show(og, op), "states": [_show(g, p) for g, p, _ in tabs]}, True,
                           expected=want, observed=got)
+
+
+def run_live(shard, rec, B):
+    """expectations / probabilities re-asked of one live state object after every in-place operation of a history."""
+    from .. import live
+    rng = gen.rng_for(rec)
+    for t in range(shard["n"]):
+        N = int(rng.integers(1, 5))
+
+        def query(S, G, hist, step):
+            R = G.rho()
+            L = int(rng.integers(1, 5))
+            og = gen.rand_list(rng, L, N)
+            if G.gens and rng.integers(2):
+                og[0] = G.gens[int(rng.integers(len(G.gens)))][0]
+            op = 2 * rng.integers(0, 2, L)
+            case = {"N": N, "history": hist[-6:], "obs": _show(og, op)}
+            ok, xs = rec.attempt("live.exp", case, lambda: S.expect(B.PauliList(og.copy(), op.copy())))
+            if ok:
+                want = np.array([np.trace(R @ O.dense(g, p)).real for g, p in zip(og, op)])
+                got = B.npf(xs).astype(float).reshape(-1)
+                rec.check("live.exp", got.shape == want.shape and np.allclose(got, want, atol=1e-6), case, True, expected=want, observed=got)
+            cs = gen.rand_coeffs(rng, L)
+            pp = rng.integers(0, 4, L)
+            ok, x = rec.attempt("live.exp.poly", case, lambda: S.expect(B.Poly(og.copy(), pp.copy(), cs.copy())))
+            if ok:
+                want = np.trace(R @ O.dense_poly(og, pp, cs))
+                rec.check("live.exp.poly", abs(_num(B, x) - want) < 1e-5 * (1 + np.abs(cs).sum()), case, True, expected=want, observed=_num(B, x))
+            if G.r == 0:
+                b = rng.integers(0, 2, N)
+                ok, x = rec.attempt("live.prob", case, lambda: S.get_prob(np.array(b) if B.name == "np" else B.torch.tensor(b)))
+                if ok:
+                    want = float(np.real(np.trace(R @ O.basis_proj(b))))
+                    rec.check("live.prob", abs(_num(B, x) - want) < 1e-6, dict(case, bits=b), True, expected=want, observed=_num(B, x))
+                sg, sp, sr = O.random_tableau(rng, N)
+                ok, x = rec.attempt("live.overlap", case, lambda: S.expect(B.State(sg.copy(), sp.copy(), sr)))
+                if ok:
+                    want = np.trace(R @ O.rho(sg, sp, sr)).real
+                    rec.check("live.overlap", abs(_num(B, x) - want) < 1e-6, case, True, expected=want, observed=_num(B, x))
+        live.walk(rec, B, rng, N, int(rng.integers(4, 16)), query)
